@@ -12,21 +12,23 @@ Record mstore := {
   ms_wrap : wrap;
   ms_chan : list event;        (* the event channel, most recent first *)
   ms_emit : bool;              (* storage-event-control *)
-  ms_readers : list nat }.     (* per registered reader: number of events already read *)
+  ms_readers : list nat;       (* per registered reader: number of events already read *)
+  ms_unit : bool }.            (* the component type is the zero-sized unit type (null storage) *)
 
-Definition ms_new (k : kind) (w : wrap) : mstore :=
-  {| ms_mask := NS.empty; ms_raw := raw_new k; ms_wrap := w; ms_chan := []; ms_emit := true; ms_readers := [] |}.
+Definition ms_new (k : kind) (w : wrap) (unit : bool) : mstore :=
+  {| ms_mask := NS.empty; ms_raw := raw_new k; ms_wrap := w; ms_chan := []; ms_emit := true; ms_readers := [];
+     ms_unit := unit |}.
 
 Definition ms_set (ms : mstore) (mask : NS.t) (r : raw) : mstore :=
   {| ms_mask := mask; ms_raw := r; ms_wrap := ms_wrap ms; ms_chan := ms_chan ms; ms_emit := ms_emit ms;
-     ms_readers := ms_readers ms |}.
+     ms_readers := ms_readers ms; ms_unit := ms_unit ms |}.
 
 Definition ms_event (ms : mstore) (e : event) : mstore :=
   match ms_wrap ms with
   | WPlain => ms
   | _ => if ms_emit ms then
            {| ms_mask := ms_mask ms; ms_raw := ms_raw ms; ms_wrap := ms_wrap ms; ms_chan := e :: ms_chan ms;
-              ms_emit := ms_emit ms; ms_readers := ms_readers ms |}
+              ms_emit := ms_emit ms; ms_readers := ms_readers ms; ms_unit := ms_unit ms |}
          else ms
   end.
 
@@ -188,7 +190,7 @@ Definition st_entry (ms : mstore) (av : aview) (e : entity) (o : entry_op) (c : 
 Definition st_get_mut_or_default (ms : mstore) (av : aview) (e : entity) (c : ctx) : mstore * option tok * ctx :=
   if present ms av e then st_get_mut ms av e false None c
   else
-    let '(ms1, r, c1) := st_insert ms av e default_tok (cx_mint c) in
+    let '(ms1, r, c1) := st_insert ms av e (if ms_unit ms then unit_tok else default_tok) (cx_mint c) in
     match r with
     | InsErr _ => (ms1, None, c1)
     | _ => st_get_mut ms1 av e false None c1
@@ -197,7 +199,7 @@ Definition st_get_mut_or_default (ms : mstore) (av : aview) (e : entity) (c : ct
 (* event readers *)
 Definition st_register_reader (ms : mstore) : mstore * nat :=
   ({| ms_mask := ms_mask ms; ms_raw := ms_raw ms; ms_wrap := ms_wrap ms; ms_chan := ms_chan ms;
-      ms_emit := ms_emit ms; ms_readers := ms_readers ms ++ [length (ms_chan ms)] |}, length (ms_readers ms)).
+      ms_emit := ms_emit ms; ms_readers := ms_readers ms ++ [length (ms_chan ms)]; ms_unit := ms_unit ms |}, length (ms_readers ms)).
 
 Fixpoint set_nth {A} (l : list A) (k : nat) (x : A) : list A :=
   match l, k with
@@ -211,11 +213,11 @@ Definition st_read_events (ms : mstore) (k : nat) : mstore * option (list event)
   | Some cur =>
       let all := rev (ms_chan ms) in
       ({| ms_mask := ms_mask ms; ms_raw := ms_raw ms; ms_wrap := ms_wrap ms; ms_chan := ms_chan ms;
-          ms_emit := ms_emit ms; ms_readers := set_nth (ms_readers ms) k (length all) |},
+          ms_emit := ms_emit ms; ms_readers := set_nth (ms_readers ms) k (length all); ms_unit := ms_unit ms |},
        Some (skipn cur all))
   | None => (ms, None)
   end.
 
 Definition st_set_emission (ms : mstore) (b : bool) : mstore :=
   {| ms_mask := ms_mask ms; ms_raw := ms_raw ms; ms_wrap := ms_wrap ms; ms_chan := ms_chan ms;
-     ms_emit := b; ms_readers := ms_readers ms |}.
+     ms_emit := b; ms_readers := ms_readers ms; ms_unit := ms_unit ms |}.
